@@ -291,19 +291,20 @@ func applyPatchToShadow(patch, dir string) (map[string]string, error) {
 // ---------------------------------------------------------------- jobs
 
 type Job struct {
-	Mode     string  `json:"mode"`
-	Engine   string  `json:"engine"`
-	Prop     string  `json:"prop"`
-	Tier     string  `json:"tier"`
-	Seed     uint64  `json:"seed"`
-	Start    int     `json:"start"`
-	Stride   int     `json:"stride"`
-	MaxRuns  int     `json:"max_runs"`
-	Seconds  float64 `json:"seconds"`
-	Out      string  `json:"out"`
-	Replay   string  `json:"replay,omitempty"`
-	Budget   int     `json:"budget,omitempty"`
-	HashOnly bool    `json:"hash_only,omitempty"`
+	Mode     string   `json:"mode"`
+	Engine   string   `json:"engine"`
+	Prop     string   `json:"prop"`
+	Tier     string   `json:"tier"`
+	Seed     uint64   `json:"seed"`
+	Start    int      `json:"start"`
+	Stride   int      `json:"stride"`
+	MaxRuns  int      `json:"max_runs"`
+	Seconds  float64  `json:"seconds"`
+	Out      string   `json:"out"`
+	Replay   string   `json:"replay,omitempty"`
+	Budget   int      `json:"budget,omitempty"`
+	HashOnly bool     `json:"hash_only,omitempty"`
+	Known    []string `json:"known,omitempty"`
 }
 
 func runJob(bin string, job *Job, wd string, tag string, gomaxprocs int, watchdog time.Duration) ([]byte, string, error) {
@@ -589,6 +590,12 @@ func checkOne(o checkOpts, e *EngineDef) (int, map[string]any, int) {
 	if W <= 0 {
 		W = runtime.NumCPU()
 	}
+	var knownPats []string
+	for _, f := range loadFindings() {
+		if f.Status == "known" && f.Property == o.prop {
+			knownPats = append(knownPats, f.Signature)
+		}
+	}
 	results := make([]*BatchResult, W)
 	errs := make([]error, W)
 	logs := make([]string, W)
@@ -597,7 +604,7 @@ func checkOne(o checkOpts, e *EngineDef) (int, map[string]any, int) {
 		wg.Add(1)
 		go func(w int) {
 			defer wg.Done()
-			job := &Job{Mode: "batch", Engine: e.Name, Prop: o.prop, Tier: o.tier, Seed: o.seed, Start: w, Stride: W, Seconds: seconds, MaxRuns: o.maxRuns}
+			job := &Job{Mode: "batch", Engine: e.Name, Prop: o.prop, Tier: o.tier, Seed: o.seed, Start: w, Stride: W, Seconds: seconds, MaxRuns: o.maxRuns, Known: knownPats}
 			b, lg, err := runJob(bin, job, wd, fmt.Sprintf("w%d", w), 2, time.Duration(seconds*3+300)*time.Second)
 			logs[w] = lg
 			if err != nil {
